@@ -64,6 +64,13 @@ Example side_condition_satisfiable : protocol_ok protocol_repaired = true.
 Proof. exact repaired_ok. Qed.
 Example side_condition_rejects_old : protocol_ok protocol_e70354f = false.
 Proof. exact e70354f_not_ok. Qed.
+(* a history with a meta rewritten by validate_meta, a failing remove and a kill, on the repaired order *)
+Example touched_failing_remove_history :
+  let r := {| r_cur := fun _ => 2; r_touch := [1]; r_shape := Par [[[[0]]]]; r_fail := fun p i => Nat.eqb p 1 && Nat.eqb i 1;
+              r_stamp := fun p i => 200 + i; r_crash := fun p => 6; r_shard := fun _ => 0 |} in
+  warm idn idn (run_history idn protocol_repaired SQL [full_run 1; r]) (fun _ => 2) [0; 1]
+  = cold idn idn (fun _ => 2) [0; 1].
+Proof. vm_compute. reflexivity. Qed.
 Example wellformed_history_exists :
   Forall (fun r => NoDup (shape_mods (r_shape r))) [full_run 1; killed_worker 2 5; failing_run 3 3].
 Proof. repeat constructor; simpl; tauto. Qed.
